@@ -203,6 +203,11 @@ class Check:
 
     def finish(self):
         wall = time.time() - self.t0
+        if self.traces_validated == 0:
+            # a run that validated no execution of the real code has decided nothing: never report it as "held"
+            print('MACHINERY-ERROR %s: no trace of the real code was validated' % self.prop)
+            shutil.rmtree(self.tmp, ignore_errors=True)
+            return 2
         cov = {
             'states': self.states, 'transitions': self.transitions,
             'traces_validated_against_impl': self.traces_validated,
